@@ -65,7 +65,25 @@ def family_lib():
     return lib
 
 
+FAMLIB = family_lib()
 WRAPPERS = ["w0", "wp", "wd", "wpd", "wl", "wn", "wpn"]
+
+
+def c_lib(lib):
+    return "[%s]" % "; ".join("(%s, {| c_tpl := %s; c_data := [%s] |})" % (
+        G.q(n), G.c_tpls(cd["tpl"]), "; ".join("(%s, %s)" % (G.q(x), G.c_dexpr(d)) for x, d in cd["data"])) for n, cd in lib)
+
+
+FAMLIB_DEF = "Definition famlib : list (str * cdef) := %s." % c_lib(FAMLIB)
+
+
+def c_prog(p):
+    """like genprog.c_prog; the family's library is defined once per case file"""
+    if p["lib"] is not FAMLIB:
+        return G.c_prog(p)
+    ctx = "; ".join("(%s, %s)" % (G.q(x), G.c_value(v)) for x, v in p["ctx"])
+    return "{| p_lib := famlib; p_page := %s; p_ctx := [%s]; p_mode := %s |}" % (
+        G.c_tpls(p["page"]), ctx, "Isolated" if p["mode"] == "isolated" else "Django")
 
 
 def wrap(w, body, only=False):
@@ -110,15 +128,51 @@ def family_wrappings():
 
 
 def family_programs():
-    lib = family_lib()
+    lib = FAMLIB
     for mode in ("isolated", "django"):
         for wl, wf in family_wrappings():
             for bl, body in family_bodies():
-                if mode == "django" and "only" in bl and False:
-                    continue
                 page = [T("PAGE:")] + wf(list(body)) + [T(":END")]
                 yield ("%s/%s/%s" % (mode, wl, bl),
                        {"lib": lib, "page": page, "ctx": [("p1", "P1"), ("plist", ["I1", "I2"])], "mode": mode, "nerr": 1})
+
+
+def shape_programs(chk, n, mode):
+    """random compositions of the family's building blocks: deep nesting, many consumers per provider"""
+    r = chk.rng
+    lib = FAMLIB
+
+    def body(depth, keys):
+        items = []
+        for _ in range(r.randint(1, 3)):
+            c = r.random()
+            if depth >= 4 or c < 0.33:
+                strict_ok = "pa" in keys or r.random() < 0.08
+                items.append(comp(r.choice(["cons", "consd", "cons2"] if strict_ok else ["consd", "cons2"])))
+            elif c < 0.55:
+                k = r.choice(["pa", "pa", "pb"])
+                val = r.choice([("str", "v%d" % r.randrange(9)), ("var", "p1"), ("var", "i")])
+                items.append(provide(k, val, body(depth + 1, keys | {k})))
+            elif c < 0.85:
+                w = r.choice(WRAPPERS)
+                inner_keys = keys | ({"pa"} if w in ("wp", "wpd", "wpn") else set())
+                style = r.random()
+                if style < 0.15:
+                    fb = []
+                elif style < 0.6:
+                    fb = [T("!")] + body(depth + 1, inner_keys)
+                else:
+                    fb = [("fill", ("str", "s"), None, None, [T("!")] + body(depth + 1, inner_keys))]
+                items.append(wrap(w, fb, only=(mode == "isolated" and r.random() < 0.2)))
+            elif c < 0.93:
+                items.append(("for", "i", ("var", "plist"), body(depth + 1, keys) + [("out", ("var", "i"))]))
+            else:
+                items.append(("if", ("var", r.choice(["p1", "nope"])), body(depth + 1, keys), body(depth + 1, keys)))
+            items.append(T(r.choice("|,;")))
+        return items
+    for i in range(n):
+        page = [T("PAGE:")] + body(0 if i >= n // 3 else 2, set()) + [T(":END")]
+        yield ("shape-%s-%d" % (mode, i), {"lib": lib, "page": page, "ctx": [("p1", "P1"), ("plist", ["I1", "I2"][: r.randint(1, 2)])], "mode": mode, "nerr": 1})
 
 
 def gen_programs(chk, n, mode):
@@ -204,6 +258,8 @@ class Ctx:
         self.core_terms, self.core_meta = [], []
         self.trace_terms, self.trace_meta = [], []
         self.solo = {}
+        import time
+        self.t_last = time.time()
 
 
 def describe(prog):
@@ -238,7 +294,7 @@ def render_page(prog, dynamic=False, rehook=False):
         classes, cleanup = R.build(prog, dynamic, extra_attrs=rehook_attrs if rehook else None)
         try:
             src = G.d_tpls(prog["page"], dynamic)
-            return R.outcome_of(lambda: Template(src).render(Context(dict(prog["ctx"]))))
+            return R.outcome_of(lambda: Template(src).render(Context(dict(prog["ctx"]))), limit=15.0)
         finally:
             cleanup()
 
@@ -293,7 +349,7 @@ def run_one(cx, label, prog, dynamic=False, keep_tables=False, count=True, rehoo
         chk.dist["failed-render-left-table-entries(C06)"] += 1
     # Coq cases
     if not (o[0] == "err" and o[1].startswith("other:")) and not dynamic:
-        cx.core_terms.append("(%s, %s)" % (G.c_prog(prog), R.c_outcome(o)))
+        cx.core_terms.append("(%s, %s)" % (c_prog(prog), R.c_outcome(o)))
         cx.core_meta.append((label, prog, o))
     cx.trace_terms.append(U.c_trace_case(init, events, roots if o[0] == "ok" else None, o[0] == "ok" and init == EMPTY))
     cx.trace_meta.append((label, prog, dynamic, o, [(e, t) for e, t in events], [n.to_obj() for n in roots], init))
@@ -306,7 +362,7 @@ def run_one(cx, label, prog, dynamic=False, keep_tables=False, count=True, rehoo
                   kind="%s/%s/%s" % (prog["mode"], variant, "err" if o[0] == "err" else "ok"),
                   sample={"label": label, "mode": prog["mode"], "page": G.d_tpls(prog["page"]),
                           "components": {n: G.d_tpls(cd["tpl"]) for n, cd in prog["lib"] if any(t[0] == "comp" and t[1] == n for t in all_nodes(prog))},
-                          "output": o[1][:200], "events": len(events)} if nontriv and small and label.startswith("gen") else None)
+                          "output": o[1][:200], "events": len(events)} if nontriv and small and label.startswith(("gen", "shape")) else None)
         d = chk.dist
         d["events-total"] += len(events)
         d["providers-rendered"] += st["provs"]
@@ -326,32 +382,66 @@ def run_one(cx, label, prog, dynamic=False, keep_tables=False, count=True, rehoo
 
 
 def flush(cx, tag):
-    """evaluate the queued cases inside Coq"""
+    """evaluate the queued cases inside Coq (reference renderer on the programs, table model on the traces, concurrently)"""
+    import threading
+    import time
     chk = cx.chk
-    if cx.core_terms:
+    t0 = time.time()
+    chk.extra.setdefault("phase_wall_s", {})["render:" + tag] = round(t0 - cx.t_last, 1)
+    res = {}
+
+    def core():
         terms, meta = cx.core_terms, cx.core_meta
-        bad = C.coq_eval_cases("C05", tag + "c", IMPORTS_CORE, "core_case", "check_core", terms, shard=120)
+        if not terms:
+            res["core"] = []
+            return
+        bad = C.coq_eval_cases("C05", tag + "c", IMPORTS_CORE, "core_case", "check_core", terms, shard=60, extra_defs=FAMLIB_DEF)
         maybe = [i for i in bad if meta[i][2][0] == "err" and meta[i][2][1] in possible_kinds(meta[i][1]) and len(possible_kinds(meta[i][1])) > 1]
+        nok = 0
         if maybe:
-            still = C.coq_eval_cases("C05", tag + "l", IMPORTS_CORE, "core_case", "check_core_lenient", [terms[i] for i in maybe], shard=120)
+            still = C.coq_eval_cases("C05", tag + "l", IMPORTS_CORE, "core_case", "check_core_lenient", [terms[i] for i in maybe], shard=60,
+                                     extra_defs=FAMLIB_DEF)
             ok = set(maybe) - {maybe[i] for i in still}
-            chk.dist["error-class-order-ambiguous"] += len(ok)
+            nok = len(ok)
             bad = [i for i in bad if i not in ok]
-        for i in sorted(bad, key=lambda i: len(json.dumps(meta[i][1], default=list)))[:8]:
-            label, prog, o = meta[i]
-            chk.fail("c05-output-differs-from-reference",
-                     "rendered output / exception differs from the reference semantics Core/Sem.v (provider scoping by rendered structure)",
-                     {"label": label, "program": prog, "source": describe(prog), "implementation": o, "oracle": U.PyRef(prog).run()[:2]})
-        cx.core_terms, cx.core_meta = [], []
-    if cx.trace_terms:
-        bad = C.coq_eval_cases("C05", tag + "t", IMPORTS_TRACE, "trace_case", "check_trace", cx.trace_terms, shard=100)
-        for i in sorted(bad, key=lambda i: len(cx.trace_meta[i][4]))[:8]:
-            label, prog, dynamic, o, events, tree, init = cx.trace_meta[i]
-            chk.disagree("recorded provide/inject event trace differs from the M-model of perfutil/provide.py "
-                         "(tables after some event, order of the deferred schedule, or well-formedness of the recorded tree)",
-                         {"label": label, "program": prog, "dynamic": dynamic, "source": describe(prog), "implementation": o,
-                          "initial_tables": init, "events": events, "recorded_tree": tree})
-        cx.trace_terms, cx.trace_meta = [], []
+        res["core"], res["ambiguous"] = bad, nok
+
+    def trace():
+        res["trace"] = C.coq_eval_cases("C05", tag + "t", IMPORTS_TRACE, "trace_case", "check_trace", cx.trace_terms, shard=60) if cx.trace_terms else []
+
+    errs = []
+
+    def guarded(f):
+        def g():
+            try:
+                f()
+            except BaseException as e:   # re-raised in the main thread
+                errs.append(e)
+        return g
+    ths = [threading.Thread(target=guarded(core)), threading.Thread(target=guarded(trace))]
+    for t in ths:
+        t.start()
+    for t in ths:
+        t.join()
+    if errs:
+        raise errs[0]
+    chk.dist["error-class-order-ambiguous"] += res.get("ambiguous", 0)
+    meta = cx.core_meta
+    for i in sorted(res["core"], key=lambda i: len(json.dumps(meta[i][1], default=list)))[:8]:
+        label, prog, o = meta[i]
+        chk.fail("c05-output-differs-from-reference",
+                 "rendered output / exception differs from the reference semantics Core/Sem.v (provider scoping by rendered structure)",
+                 {"label": label, "program": prog, "source": describe(prog), "implementation": o, "oracle": U.PyRef(prog).run()[:2]})
+    for i in sorted(res["trace"], key=lambda i: len(cx.trace_meta[i][4]))[:8]:
+        label, prog, dynamic, o, events, tree, init = cx.trace_meta[i]
+        chk.disagree("recorded provide/inject event trace differs from the M-model of perfutil/provide.py "
+                     "(tables after some event, order of the deferred schedule, or well-formedness of the recorded tree)",
+                     {"label": label, "program": prog, "dynamic": dynamic, "source": describe(prog), "implementation": o,
+                      "initial_tables": init, "events": events, "recorded_tree": tree})
+    cx.core_terms, cx.core_meta = [], []
+    cx.trace_terms, cx.trace_meta = [], []
+    cx.t_last = time.time()
+    chk.extra["phase_wall_s"]["coq:" + tag] = round(cx.t_last - t0, 1)
 
 
 # ----------------------------------------------------------------------------------------------------
@@ -412,12 +502,10 @@ def run(tier, seed):
     for label, prog in corpus_programs():
         o = run_one(cx, label, prog)
         pool.append((label, prog, o))
-    flush(cx, "corpus")
     fam = list(family_programs())
     for i, (label, prog) in enumerate(fam):
         o = run_one(cx, label, prog, rehook=(i % 2 == 1 and prog["mode"] == "isolated"))
         pool.append((label, prog, o))
-    flush(cx, "fam")
     n = 1800 if tier == "thorough" else 260
     for mode in ("isolated", "django"):
         for i, (label, prog) in enumerate(gen_programs(chk, n, mode)):
@@ -433,9 +521,13 @@ def run(tier, seed):
                 if not same:
                     chk.fail("c05-dynamic-variant-differs", "rendering through {% component \"dynamic\" is=.. %} differs from the plain tag",
                              {"label": label, "program": prog, "source": describe(prog), "plain": o, "dynamic": od})
-        flush(cx, mode[:3])
+    nshape = 1000 if tier == "thorough" else 120
+    for mode in ("isolated", "django"):
+        for i, (label, prog) in enumerate(shape_programs(chk, nshape, mode)):
+            o = run_one(cx, label, prog, rehook=(i % 2 == 1 and mode == "isolated"))
+            pool.append((label, prog, o))
     run_histories(cx, pool, 120 if tier == "thorough" else 40, 4)
-    flush(cx, "hist")
+    flush(cx, "all")
     U.RECORDER.clear_tables()
     chk.assumptions = [
         "programs are drawn from the calculus of coq/Core/Syntax.v; provide keys are identifiers; provided values are strings; get_context_data is "
@@ -453,9 +545,10 @@ def run(tier, seed):
              "(1-3 sibling consumers of 3 kinds, 7 wrapper components [provider around the slot, consumer in the slot default, slot in a loop, pass-through slot in a nested "
              "fill] with consumers in implicit / named fills, provider inside the fill, `only`, siblings after the wrapper, wrapper in wrapper, loops, if/with); then %d seeded "
              "genprog programs per context behaviour with provide blocks at page level, in component templates, around slots, inside fills and loops (every 3rd also through the "
-             "dynamic component); then %d histories of 2-5 renders in one process. Non-trivial = a successful render in which one provider is injected from by >= 2 component "
-             "instances. Distinct = distinct program text and variant." % (len(fam), len(family_bodies()), n, 120 if tier == "thorough" else 40),
-        explanation="17 theorems of Props/C05.v re-checked. Every render: output vs Core/Sem.v inside Coq; rendered structure and every inject() value vs the Python oracle on the "
+             "dynamic component); then %d random compositions per context behaviour of the family's blocks (nesting depth <= 5, several consumers per provider, loops, `only` in "
+             "isolated mode); then %d histories of 2-5 renders in one process. Non-trivial = a successful render in which one provider is injected from by >= 2 component "
+             "instances. Distinct = distinct program text and variant." % (len(fam), len(family_bodies()), n, nshape, 120 if tier == "thorough" else 40),
+        explanation="18 theorems of Props/C05.v re-checked. Every render: output vs Core/Sem.v inside Coq; rendered structure and every inject() value vs the Python oracle on the "
                     "program tree and vs the nearest enclosing ProvideNode of the recorded structure; recorded event trace replayed on the Coq model of perfutil/provide.py "
                     "(tables after every event, deferred order = trace_of(recorded tree), wf_page(recorded tree), empty at the end).",
         extra_trusted=["modelled, not verified: Django's template engine and Context (inject keys travel as context entries; the model sees the ids a component's context carries as the `vis` "
